@@ -268,6 +268,10 @@ def check(ctx):
     nm2 = core.adopt(ctx, _c02, lambda o: o["rule"] == "C02.a" and any(k in o["key"] for k in ("single-disposition", "dispositions=", "abort-only")), "C08.f")
     ctx.floor("C08.f", nm + nm2, 5, "shared one-run-per-scheduled-reaction obligations (C02.a, C02.d, C11.prepared): a scheduled reaction runs, is postponed or is aborted only because its target is gone")
     nk = core.adopt(ctx, c01, lambda o: o["rule"] == "C01.a" and "entity-scoped-dispatch:every-component-kind" in o["key"], "C08.d")
+    # 'every reactor registered for it throughout': a removal / despawn registration disappears only through its own
+    # revocation (the entry of a component is deleted only when all of its lists are empty; a revoke removes one entry)
+    import c06 as _c06
+    nk += core.adopt(ctx, _c06, lambda o: o["rule"] == "C06.f" or (o["rule"] == "C06.b" and "one-removal-site" in o["key"]), "C08.d")
     ctx.floor("C08.d", nk, 1, "shared entity-scoped dispatch coverage (C01.a)")
 
     # the tracker component is never taken off a live entity by the crate: removing it runs its Drop, which reports the
@@ -306,6 +310,15 @@ def check(ctx):
                   "garbage collection and the removal/despawn poll dominate the lookup of the target's callback",
                   "the runner can look its target up without having collected released entities and polled removals/despawns first "
                   "(a despawn made earlier in the tree is then reacted to after a later event)")
+        # ... and a command for a busy target is postponed only after the entry poll (reactions detected by the poll for the
+        # same busy target are postponed first: they were caused first)
+        pushes = lib.call_blocks(R, lib.ends(A.names(prog)["queue_push"])) if A.names(prog).get("queue_push") else []
+        if pushes:
+            okp_ = all(any(R.dominates(p_, pb) for p_ in lib.call_blocks(R, lambda n: n == poll.path)) for pb in pushes)
+            ctx.check(okp_, "C08.e", "runner:polls-before-postponing", R.loc(pushes[0]),
+                      "the removal/despawn poll dominates the postponement of a command for a busy target",
+                      "the runner postpones a command for a busy target before polling removals/despawns: a reaction to a despawn made "
+                      "earlier is then delivered after the later command")
         # ... and after the finished system was put back (or dropped): reactions polled here may target that system, and
         # dropping its callback may release signals whose despawns must be seen in this tree
         inserts = lib.call_blocks(R, lib.ends(A.names(prog)["storage_insert"]))
